@@ -22,6 +22,8 @@ impl SecondaryRowHandler {
 }
 
 impl From<i64> for SecondaryRowHandler {
+    #[cfg_attr(kani, kani::requires(data >= 0))]
+    #[cfg_attr(kani, kani::ensures(|r: &SecondaryRowHandler| r.0 as i64 == data >> 32 && r.1 as i64 == data & 0xFFFF_FFFF))]
     fn from(data: i64) -> Self {
         assert!(data >= 0);
         Self((data >> 32) as u32, (data & ((1 << 32) - 1)) as u32)
@@ -29,6 +31,9 @@ impl From<i64> for SecondaryRowHandler {
 }
 
 impl From<SecondaryRowHandler> for i64 {
+    // a row handler is stored in a non-negative i64: the rowset id must fit 31 bits
+    #[cfg_attr(kani, kani::requires(handler.0 < (1u32 << 31)))]
+    #[cfg_attr(kani, kani::ensures(|r: &i64| *r >= 0 && *r >> 32 == handler.0 as i64 && *r & 0xFFFF_FFFF == handler.1 as i64))]
     fn from(handler: SecondaryRowHandler) -> Self {
         ((handler.0 as i64) << 32) | (handler.1 as i64)
     }
